@@ -31,6 +31,7 @@ Rep(name, f) == f \/ PrintT(<<"viol", tid, l, name>>)
 Report ==
   /\ Rep("NoHang", NoHang(O, R.meta.mayPause))
   /\ Rep("NoWaitingAtRest", NoWaitingAtRest(O))
+  /\ Rep("KnownTasksOnly", KnownTasksOnly(D, O))
   /\ Rep("DeclaredErrorsOnly", DeclaredErrorsOnly(Ev, Rng(R.declared), R.meta.faulty))
   /\ Rep("WfMoves", WfMoves(P, O, Ev))
   /\ Rep("ResultOnce", ResultOnce(P, O))
@@ -76,5 +77,6 @@ Report ==
               Rep("PartialRerunOnlyFailed", PartialRerunOnlyFailed(Steps[k - 1].obs, O, Steps[k].ev.target))
   /\ Rep("ParentMirrorsChild", ParentMirrorsChild(D, O))
   /\ Rep("RootAndNamespace", RootAndNamespace(O))
+  /\ Rep("CalledDefinition", CalledDefinition(D, O))
   /\ (l = Len(Steps) => PrintT(<<"done", tid, Len(Steps)>>))
 =============================================================================
